@@ -35,7 +35,11 @@ class SolverAnalysis:
         self.nruns = 0
         self.faults = []
 
-    def run(self, footprint, analytic, ctx="generic", halo="given", precision="double", levels_kind="array", cache=None, stubs=None):
+    def run(self, footprint, analytic, ctx="generic", halo=None, precision=None, levels_kind=None, cache=None, stubs=None):
+        # a parameter the rule does not fix takes the call style of the current sweep (thorough tier: DEFAULT_STYLE varies)
+        halo = halo or DEFAULT_STYLE["halo"]
+        precision = precision or DEFAULT_STYLE["precision"]
+        levels_kind = levels_kind or DEFAULT_STYLE["levels_kind"]
         key = (footprint, analytic, ctx, halo, precision, levels_kind, cache is not None)
         if key not in self.runs:
             S, res = run_solver(self.P, footprint=footprint, analytic=analytic, halo=halo, precision=precision,
@@ -144,6 +148,7 @@ def views(SA, footprint, analytic, ctx="generic", **kw):
     return S, [PathView(S, r) for r in rets]
 
 
+DEFAULT_STYLE = {"halo": "given", "precision": "double", "levels_kind": "array"}  # how the solver is called where a rule does not say
 DEFAULT_CLAMP = (False, False)  # the thorough tier re-evaluates every rule for each clamp outcome
 
 
